@@ -196,6 +196,18 @@ def run_case(arg):
                         specs.append((p, "open-" + kind, nth, en, None))
                     else:
                         specs.append((p, op, nth, en, None))
+        if not cfg.get("transform"):
+            # persistent faults: every stat / open / read of one file fails (a file that stays unreadable, as opposed to
+            # a single failing call)
+            for p in sorted(files):
+                # (not for hard-linked files: which of their paths fclones reads is not determined, and the others are
+                # opened for the extent query only)
+                if sum(1 for q in files.values() if q["id"] == files[p]["id"]) > 1:
+                    continue
+                for op in ("stat", "open", "read"):
+                    if counts.get((p, op)):
+                        for en in ERRNOS:
+                            specs.append((p, op + "-all", 0, en, None))
         if tier == "thorough":
             fl = sorted(p for p in files)
             for a in range(len(fl)):
@@ -217,7 +229,7 @@ def _one(cfg, ci, si, troot, home, d, files, full, sp, inputs=None, mo=None):
     mo = mo or {}
     X, op, nth, en, second = sp
     harmless = op in ("fiemap", "open-fiemap")
-    shim_op = "open" if op.startswith("open-") else op
+    shim_op = "open" if op.startswith("open-") else op[:-4] if op.endswith("-all") else op
     rules = [shimlog.rule(shim_op, X, nth, "fail:%d" % en, exact=True)]
     if op == "open-hash":
         # fclones retries an open without O_NOATIME: the logical open fails only if the retry fails too
